@@ -92,22 +92,67 @@ def arm_matches(arm_pat, e_case, i_case):
 
 
 def decision_table(fx):
-    """[(e_case, i_case, arm, kind)] for the 6 abstract cases, first matching arm wins."""
-    n, t, m, scr = compare_match(fx)
+    """[(e_case, i_case, arm-like, kind)] for the 6 abstract cases, by abstract interpretation of the closure that holds the
+    two lookups (form-independent: merged arms, helper functions, combinators, early returns all evaluate to the same results).
+
+    `arm-like` is a dict {"sp": span, "value": abstract result} (kept for the callers that want a location / the wiring)."""
+    from vlib import absint as A
+    name = find_compare(fx)
+    holders = []
+    for n, t in fx.thir.items():
+        if n == name or n.startswith(name + "::{closure"):
+            gets = [c for c in T.calls(T.norm(t["body"])) if T.short(c["fn"], 2) == "HashMap::get"]
+            if len(gets) >= 2:
+                holders.append((n, t))
+    if len(holders) != 1:
+        raise F.AnchorLost("compare: the body holding the (evaluated, installed) lookups not found (%d candidates)" % len(holders))
+    n, t = holders[0]
+    EV = AGENT + "::policies::Evaluated"
+    IN = AGENT + "::policies::Installed"
     rows = []
     for e in E_CASES:
         for i in I_CASES:
-            hit = None
-            for a in m["arms"]:
-                r = arm_matches(a["pat"], e, i)
-                if r is None:
-                    hit = (a, "unrecognised-pattern")
-                    break
-                if r:
-                    hit = (a, classify(a["body"]))
-                    break
-            rows.append((e, i, hit[0] if hit else None, hit[1] if hit else "no-arm"))
-    return n, t, m, scr, rows
+            def hook(fn, args, node, interp, e=e, i=i):
+                if T.short(fn, 2) != "HashMap::get" or not args:
+                    return None
+                recv = A.vstr(args[0])
+                if "installed" in recv:
+                    return A.NONE if i == "absent" else A.some(("adt", IN, "Installed", (("ipv4", ("sym", "old_ipv4")), ("ipv6", ("sym", "old_ipv6")))))
+                if "self" in recv:
+                    if e == "absent":
+                        return A.NONE
+                    rg = A.NONE if e.endswith("None") else A.some(("tuple", (("sym", "new_ipv4"), ("sym", "new_ipv6"))))
+                    return A.some(("adt", EV, "Evaluated", (("filter_expr", ("sym", "filter_expr")), ("ranges", rg))))
+                return None
+            it = A.Interp(fx, hook=hook, crates=(AGENT,))
+            try:
+                paths = it.explore_body(t)
+            except A.Undecided as ex:
+                rows.append((e, i, {"sp": t.get("sp"), "value": None}, "undecided: %s" % ex))
+                continue
+            kinds = set()
+            vals = []
+            for p in paths:
+                if p.end == "abort":
+                    kinds.add("unreachable")
+                    continue
+                vals.append(p.ret)
+                kinds.add(classify_value(p.ret))
+            kind = kinds.pop() if len(kinds) == 1 else "ambiguous:%s" % sorted(kinds)
+            rows.append((e, i, {"sp": t.get("sp"), "value": vals[-1] if vals else None, "values": vals}, kind))
+    return n, t, None, None, rows
+
+
+def classify_value(v):
+    from vlib import absint as A
+    if A.is_opt(v):
+        if v[2] == "None":
+            return "none"
+        inner = A.payload0(v)
+        if inner[0] == "adt" and inner[1].endswith("policies::Update"):
+            return "update" if inner[2] == "Update" else "delete"
+        return "some-other"
+    return "other"
 
 
 def classify(body):
@@ -126,20 +171,20 @@ def classify(body):
 
 
 # ---------------------------------------------------------------------------------------------
-# emission grammar of the agent's payload writer (load.rs)
+# emission grammar of the agent's payload writer (load.rs) — by abstract interpretation (vlib/xmlemit.py)
 # ---------------------------------------------------------------------------------------------
-from vlib import xmlgrammar as X
+from vlib import xmlemit as XE, absint as A
 
-INLINE = ("policies::load::write_route_filter", "policies::load::afi_name", "::name", "::policy_stmt_elem")
 FAMILY_CASES = [
     # (label, old, old_empty, new_empty)
-    ("old=None,new=∅", ("None",), True, True),
-    ("old=None,new≠∅", ("None",), True, False),
-    ("old=Some(∅),new=∅", ("Some", "OLD"), True, True),
-    ("old=Some(∅),new≠∅", ("Some", "OLD"), True, False),
-    ("old=Some(≠∅),new=∅", ("Some", "OLD"), False, True),
-    ("old=Some(≠∅),new≠∅", ("Some", "OLD"), False, False),
+    ("old=None,new=∅", "None", True, True),
+    ("old=None,new≠∅", "None", True, False),
+    ("old=Some(∅),new=∅", "Some", True, True),
+    ("old=Some(∅),new≠∅", "Some", True, False),
+    ("old=Some(≠∅),new=∅", "Some", False, True),
+    ("old=Some(≠∅),new≠∅", "Some", False, False),
 ]
+AFI_ADT = "ip::concrete::Afi"
 
 
 def find_thir(fx, pred, what):
@@ -159,33 +204,74 @@ def update_writer(fx):
                      "<Update as WriteXml>::write_xml")
 
 
+def _set_root(v):
+    return XE.root_name(v)
+
+
+def _family_hook(afi, old_empty, new_empty):
+    def hook(fn, args, node, interp):
+        s2 = T.short(fn, 2)
+        if s2 in ("HashSet::is_empty", "HashSet::len") and args:
+            r = _set_root(args[0])
+            if r in ("NEW", "OLD"):
+                e = new_empty if r == "NEW" else old_empty
+                return A.lit(e) if s2.endswith("is_empty") else (A.lit(0) if e else ("sym", "len:" + r))
+        if s2 in ("Afi::as_afi",) or fn.endswith("::as_afi"):
+            return ("adt", AFI_ADT, afi, ())
+        return None
+    return hook
+
+
 def family_trees(fx):
     """{(afi, case_label): (nodes | Undecided-message)}"""
     fn = differences_writer(fx)
+    DIFF = AGENT + "::policies::Differences"
     out = {}
     for afi in ("Ipv4", "Ipv6"):
         for (label, old, old_empty, new_empty) in FAMILY_CASES:
-            case = {"cond": {"Ranges::is_empty(self.new)": new_empty, "Ranges::is_empty(OLD)": old_empty},
-                    "opt": {"self.old": old}, "enum": {"Afi::as_afi()": afi}}
-            em = X.Emitter(fx, case, inline=INLINE)
+            selfv = ("adt", DIFF, "Differences", (("old", A.NONE if old == "None" else A.some(("sym", "OLD"))), ("new", ("sym", "NEW"))))
+            it = XE.XmlInterp(fx, case_hook=_family_hook(afi, old_empty, new_empty), crates=(AGENT,))
             try:
-                nodes, _ = em.run_fn(fn)
-                out[(afi, label)] = nodes
-            except X.Undecided as e:
+                paths = it.explore(fn, args=[selfv, ("sym", "writer")])
+                ts = XE.trees(paths)
+                if len(ts) != 1:
+                    out[(afi, label)] = "undecided: %d emission paths for one abstract case" % len(ts)
+                else:
+                    out[(afi, label)] = ts[0]
+            except A.Undecided as e:
                 out[(afi, label)] = "undecided: %s" % e
     return fn, out
 
 
 def envelope_trees(fx):
     fn = update_writer(fx)
+    UPD = AGENT + "::policies::Update"
     out = {}
     for var in ("Delete", "Update"):
-        case = {"cond": {}, "opt": {}, "enum": {"self": var}}
-        em = X.Emitter(fx, case, inline=INLINE)
+        if var == "Delete":
+            selfv = ("adt", UPD, "Delete", (("name", ("sym", "NAME")),))
+        else:
+            selfv = ("adt", UPD, "Update", (("name", ("sym", "NAME")), ("filter_expr", ("sym", "FILTER_EXPR")), ("ipv4", ("sym", "IPV4")), ("ipv6", ("sym", "IPV6"))))
+
+        def hook(fn_, args, node, interp):
+            # the per-family writers are analysed on their own (family_trees): record the call, do not descend
+            if fn_.endswith("::write_xml") and args and args[0][0] == "sym" and args[0][1] in ("IPV4", "IPV6"):
+                interp.emit({"tag": None, "call": "write_xml", "recv": ("expr", "self." + args[0][1].lower()), "attrs": [], "children": [], "text": None,
+                             "sp": node.get("sp")})
+                return A.ok(("unit",))
+            if T.short(fn_, 2) in ("DateTime::format", "Utc::now"):
+                return ("sym", "now")
+            return None
+        it = XE.XmlInterp(fx, case_hook=hook, crates=(AGENT,))
         try:
-            nodes, _ = em.run_fn(fn)
-            out[var] = nodes
-        except X.Undecided as e:
+            paths = it.explore(fn, args=[selfv, ("sym", "writer")])
+            ts = XE.trees(paths)
+            # cfg!(test) is a literal; any remaining fork is a real data dependence of the envelope
+            if len(ts) != 1:
+                out[var] = "undecided: %d emission paths" % len(ts)
+            else:
+                out[var] = ts[0]
+        except A.Undecided as e:
             out[var] = "undecided: %s" % e
     return fn, out
 
@@ -199,11 +285,17 @@ def child(node, tag):
 
 def text_lit(node):
     t = node.get("text") if node else None
-    while isinstance(t, tuple) and t[0] == "text":
-        t = t[2]
-    if isinstance(t, tuple) and t[0] == "lit":
-        return t[1]
+    if isinstance(t, tuple) and t[0] == "text" and isinstance(t[2], tuple) and t[2][0] == "lit":
+        return t[2][1]
     return None
+
+
+def text_expr(node):
+    """(kind, description) of an element's text: kind in escaped/raw/unknown."""
+    t = node.get("text") if node else None
+    if isinstance(t, tuple) and t[0] == "text":
+        return t[1], str(t[2][1])
+    return None, ""
 
 
 def has_attr(node, k, v=None):
